@@ -116,46 +116,19 @@ Fixpoint brace_items {A} (fuel : nat) (lex1 : bytes -> lres A) (input : bytes) (
 Definition lex_brace_list {A} (lex1 : bytes -> lres A) (input : bytes) : lres (list A) :=
   lbind (expect [123] input) (fun _ rest => brace_items (S (length input)) lex1 rest []).
 
-(* ---- regex literal scanning (rhs_types/regex/mod.rs) ---- *)
-Fixpoint regex_lit_go (fuel : nat) (full s0 : bytes) (in_class : bool) (buf : bytes) : lres (bytes * bytes) :=
-  match fuel with
-  | O => LFuel
-  | S f =>
-      match next_char s0 with
-      | None => LErr EMissingEndingQuote full (length full)
-      | Some (c, r) =>
-          match c with
-          | [92] =>
-              match next_char r with
-              | Some (c2, r2) =>
-                  let buf' := if in_class || negb (bytes_eqb c2 [34]) then buf ++ [92] ++ c2 else buf ++ c2 in
-                  regex_lit_go f full r2 in_class buf'
-              | None => regex_lit_go f full r in_class buf
-              end
-          | [34] => if in_class then regex_lit_go f full r in_class (buf ++ c)
-                    else LOk (buf, firstn (span_len full s0) full) r
-          | [91] => if in_class then regex_lit_go f full r in_class (buf ++ c)
-                    else regex_lit_go f full r true (buf ++ [91])
-          | [93] => if in_class then regex_lit_go f full r false (buf ++ [93])
-                    else regex_lit_go f full r in_class (buf ++ c)
-          | _ => regex_lit_go f full r in_class (buf ++ c)
-          end
-      end
-  end.
-
-(* Regex::lex_with: pattern text reaching the engine, RegexFormat (None = Literal) *)
+(* Regex::lex_with: pattern text reaching the engine, RegexFormat (None = Literal).  The quoted form is scanned by
+   [regex_scan_go] of Sem/Matchers.v (rhs_types/regex/mod.rs; specified and proved in Spec/C11.v, Props/C11.v);
+   the ParseRegex error span is the source text of the literal without its closing quote *)
 Definition lex_regex (input : bytes) : lres (bytes * option N) :=
   match input with
   | 34 :: r =>
-      match regex_lit_go (S (length r)) r r false [] with
-      | LOk (pat, src) rest =>
+      match regex_scan_go r false with
+      | Some (pat, rest) =>
           match regex_compile pat with
           | Some _ => LOk (pat, None) rest
-          | None => LErr EParseRegex r (length src)
+          | None => LErr EParseRegex r (length r - length rest - 1)%nat
           end
-      | LErr k a n => LErr k a n
-      | LPanic => LPanic
-      | LFuel => LFuel
+      | None => LErr EMissingEndingQuote r (length r)
       end
   | 114 :: r =>
       lbind (lex_raw_string_as_str r) (fun p rest =>
